@@ -58,6 +58,7 @@ fn expected(d: &DeclSpec, hid: u16, args: &[Arg]) -> Option<V> {
     Some(match d.ret {
         R::Unit | R::ZUnitQ => V::Unit,
         R::Hid => V::Int(hid as i128),
+        R::Big => V::Int(6000 * a_int(args.first()?)?),
         R::Idn => V::Str(simcore::world::IDN.as_bytes().to_vec()),
         R::Fail | R::FailQ => return None,
         R::EchoU32 | R::ZU8 | R::ZI8 | R::ZU16 | R::ZI16 | R::ZU32 | R::ZI32 | R::ZU64 | R::ZI64 | R::ZUsize | R::ZIsize => V::Int(a_int(args.first()?)?),
@@ -328,7 +329,18 @@ fn f32_lit(rng: &mut Rng) -> Vec<u8> {
     b.to_string().into_bytes()
 }
 fn f64_lit(rng: &mut Rng) -> Vec<u8> {
-    let b = if rng.chance(1, 2) { *rng.pick(F64_BITS) } else { rng.next() };
+    let b = match rng.below(6) {
+        0 | 1 => *rng.pick(F64_BITS),
+        // values on the f32 grid (exactly representable in single precision)
+        2 => (f32::from_bits(if rng.chance(1, 2) { *rng.pick(F32_BITS) } else { rng.next() as u32 }) as f64).to_bits(),
+        // small integers, powers of two and of ten
+        3 => match rng.below(3) {
+            0 => (rng.below(1 << 20) as f64).to_bits(),
+            1 => 2f64.powi(rng.below(128) as i32 - 64).to_bits(),
+            _ => 10f64.powi(rng.below(40) as i32 - 20).to_bits(),
+        },
+        _ => rng.next(),
+    };
     b.to_string().into_bytes()
 }
 
